@@ -30,7 +30,7 @@ theorem docBind_ok {β γ : Type} (x : DocM β) (f : β → DocM γ) (s s' : Svg
 theorem topicosvg_ok_passed_gate (nd : Int) (allowText drop noneGood : Bool) (s s' : SvgObj)
     (h : topicosvg nd allowText drop noneGood s = .ok ((), s')) :
     ∃ s1 s2, convertSteps nd noneGood s = .ok ((), s1) ∧ checkpicosvg allowText drop s1 = .ok ([], s2) ∧
-      (if drop then (elements >>= fun l => pruneLoop nd (l.length + 2)) s2 = .ok ((), s') else s2 = s') := by
+      (if drop then (pruneFuel >>= fun f => pruneLoop nd f) s2 = .ok ((), s') else s2 = s') := by
   unfold topicosvg at h
   obtain ⟨u, s1, h1, h2⟩ := docBind_ok _ _ s s' () h
   obtain ⟨u2, s2, hg, hfin⟩ := docBind_ok _ _ s1 s' () h2
